@@ -1,0 +1,26 @@
+//go:build verif
+
+// Package verifhook provides named yield points used by the verification harness.
+// With the `verif` build tag a callback can be installed that is invoked at each point,
+// which lets the harness park a goroutine there and script an interleaving.
+package verifhook
+
+import "sync/atomic"
+
+var callback atomic.Pointer[func(string)]
+
+// Set installs (or, with nil, removes) the callback invoked by At.
+func Set(f func(string)) {
+	if f == nil {
+		callback.Store(nil)
+		return
+	}
+	callback.Store(&f)
+}
+
+// At marks a named point in the code and invokes the installed callback, if any.
+func At(point string) {
+	if f := callback.Load(); f != nil {
+		(*f)(point)
+	}
+}
